@@ -352,6 +352,18 @@ def real_roundtrip(ctx, case, root):
     obs = dict(fails=fails, dir=d, filename=fn, files=None, per_kind={})
     meta = METAS[case['meta']]
     meta = dict(meta) if meta is not None else None
+    # history: earlier catalogues written to the SAME name first (their outcome is not judged here;
+    # each of them is judged as the last write of its own, shorter, history)
+    for prev in case.get('history') or []:
+        try:
+            with warnings.catch_warnings():
+                warnings.simplefilter('ignore')
+                with np.errstate(all='ignore'):
+                    C.save_catalog(fn, build(prev), meta=dict(meta) if meta is not None else None, prefix=case['prefix'])
+        except Exception:
+            pass
+    prior = set(os.listdir(d))
+    obs['prior'] = sorted(prior)
     try:
         with warnings.catch_warnings():
             warnings.simplefilter('ignore')
@@ -366,15 +378,22 @@ def real_roundtrip(ctx, case, root):
                       dict(exception=type(e).__name__, empty_first_string=bool(empty_first))))
         return obs
     root_, ext_ = os.path.splitext(fn)
-    present = sorted(os.listdir(d))
-    obs['files'] = present
+    present_all = sorted(os.listdir(d))
     by_letter = {L: [k for k, (l, _) in enumerate(cat_spec) if l == L] for L in 'CIS'}
-    if ext in ('ann', 'reg'):
-        return check_annotations(case, obs, by_letter, root_, ext_, present, fails)
     if ext in DB_EXTS:
         want = [os.path.basename(fn)]
+    elif ext in ('ann', 'reg'):
+        want = [os.path.basename(w[0]) for w in annotation_wants(ext, by_letter, root_, ext_)]
     else:
         want = sorted(os.path.basename(root_ + SUFFIX[L] + ext_) for L in 'CIS' if by_letter[L])
+    # a sibling file left by an EARLIER write of this history, of a type that no longer occurs, is not an
+    # output of this write (fsWrite_other_files_untouched): recorded as an observation, not judged
+    stale = sorted(f for f in present_all if f not in want and f in prior)
+    obs['stale_siblings'] = stale
+    present = [f for f in present_all if f not in stale]
+    obs['files'] = present
+    if ext in ('ann', 'reg'):
+        return check_annotations(case, obs, by_letter, root_, ext_, present, fails)
     if present != want:
         fails.append(('files', f"files written {present}, the property requires {want}", {}))
         return obs
@@ -383,8 +402,11 @@ def real_roundtrip(ctx, case, root):
         tables = [r[0] for r in con.execute("select name from sqlite_master where type='table' order by rowid")]
         obs['db_tables'] = tables
         wantt = [DBTABLE[L] for L in 'CIS' if by_letter[L]] + ['meta']
-        if tables != wantt:
-            fails.append(('db-tables', f"sqlite tables {tables}, expected {wantt}", {}))
+        if sorted(tables) != sorted(wantt):
+            extra_t = sorted(set(tables) - set(wantt))
+            fails.append(('db-tables', f"sqlite tables {tables}, the current catalogue requires exactly {wantt}"
+                          + (f" (tables {extra_t} hold rows of an earlier write)" if extra_t and case.get('history') else ""),
+                          dict(stale_table=bool(extra_t), missing_table=bool(set(wantt) - set(tables)))))
     for L in 'CIS':
         idx = by_letter[L]
         if not idx:
@@ -468,8 +490,7 @@ def real_roundtrip(ctx, case, root):
     return obs
 
 
-def check_annotations(case, obs, by_letter, root_, ext_, present, fails):
-    ext = case['ext']
+def annotation_wants(ext, by_letter, root_, ext_):
     want = []
     if by_letter['C']:
         want.append((root_ + '_comp' + ext_, len(by_letter['C']), 'ELLIPSE' if ext == 'ann' else 'ellipse'))
@@ -477,6 +498,12 @@ def check_annotations(case, obs, by_letter, root_, ext_, present, fails):
         want.append((root_ + '_simp' + ext_, len(by_letter['S']), 'ELLIPSE' if ext == 'ann' else 'ellipse'))
     if by_letter['I'] and ext == 'reg':
         want.append((root_ + '_isle' + ext_, len(by_letter['I']), 'fk5; text('))
+    return want
+
+
+def check_annotations(case, obs, by_letter, root_, ext_, present, fails):
+    ext = case['ext']
+    want = annotation_wants(ext, by_letter, root_, ext_)
     if sorted(os.path.basename(w[0]) for w in want) != present:
         fails.append(('files', f"annotation files {present}, expected {[os.path.basename(w[0]) for w in want]}", {}))
         return obs
@@ -546,7 +573,7 @@ def compare_model(ctx, case, obs, outs):
                                                       for s in strs.split(';')}))
     if ext in DB_EXTS:
         got_tables = [t for t in obs.get('db_tables', []) if t != 'meta']
-        if got_tables != [m['name'] for m in mfiles]:
+        if sorted(got_tables) != sorted(m['name'] for m in mfiles):
             corr.append(('db-tables', f"sqlite tables {got_tables}, model {[m['name'] for m in mfiles]}"))
     else:
         got = obs['files']
@@ -600,18 +627,21 @@ def nontrivial_key(case):
     feats = feats or any(len(v) > 1 for v in lens.values())
     if not feats:
         return None
-    return (case['ext'], case['prefix'], case['meta'], digest(cat))
+    return (case['ext'], case['prefix'], case['meta'], digest(cat), digest(case.get('history') or []))
 
 
 def summarise(case):
-    c = {k: v for k, v in case.items() if k not in ('catalog', '_dir')}
+    c = {k: v for k, v in case.items() if k not in ('catalog', '_dir', 'history')}
+    if case.get('history'):
+        c['history_rows'] = [len(h) for h in case['history']]
     c['rows'] = len(case['catalog'])
     c['types'] = ''.join(sorted({l for l, _ in case['catalog']}))
     return c
 
 
 def signature(case, what, extra):
-    sig = dict(site='catalogs.save_catalog/load_table', what=what, ext=case['ext'], prefix=case['prefix'] is not None)
+    sig = dict(site='catalogs.save_catalog/load_table', what=what, ext=case['ext'], prefix=case['prefix'] is not None,
+               second_write=bool(case.get('history')))
     sig.update({k: v for k, v in extra.items() if k not in ('row', 'attr')})
     return sig
 
@@ -620,6 +650,24 @@ def shrink(ctx, case, what, root, budget=40):
     """delta-debug the catalogue rows while the same kind of failure persists"""
     cat = list(case['catalog'])
     counter = [0]
+    if case.get('history'):
+        def one_per_class(c):
+            seen, out = set(), []
+            for src in c:
+                if src[0] not in seen:
+                    seen.add(src[0])
+                    out.append(src)
+            return out
+        small_h = [one_per_class(h) for h in case['history']]
+        c = dict(case, history=small_h, _dir=f"shrinkh{ctx.evaluations}")
+        if any(f[0] == what for f in real_roundtrip(ctx, c, root)['fails']):
+            case = dict(case, history=small_h)
+            for k in range(len(small_h)):                       # drop whole earlier writes that are not needed
+                h2 = case['history'][:k] + case['history'][k + 1:]
+                if len(case['history']) > 1 and k < len(case['history']):
+                    c = dict(case, history=h2, _dir=f"shrinkh{ctx.evaluations}_{k}")
+                    if any(f[0] == what for f in real_roundtrip(ctx, c, root)['fails']):
+                        case = dict(case, history=h2)
 
     def fails(sub):
         counter[0] += 1
@@ -678,6 +726,12 @@ def run_cases(ctx, cases, do_shrink=True):
             for what, detail in compare_model(ctx, case, obs, outs[start:start + n]):
                 rec = {k: v for k, v in case.items() if k != '_dir'} if len(case['catalog']) <= 12 else summarise(case)
                 ctx.fail('corr', rec, f"{case['ext']}: {detail}", dict(site='model', what=what, ext=case['ext']))
+        if case.get('history'):
+            ctx.count('history-step')
+        if obs.get('stale_siblings'):
+            ctx.count('observation:stale-sibling-file-of-earlier-write')
+            if not ctx.extra.get('stale_sibling_example'):
+                ctx.extra['stale_sibling_example'] = dict(ext=case['ext'], stale=obs['stale_siblings'], written=obs['files'])
         ctx.count(case['ext'])
         ctx.count('rows<=10' if len(case['catalog']) <= 10 else ('rows<=300' if len(case['catalog']) <= 300 else 'rows>300'))
         if case['prefix'] is not None:
@@ -780,6 +834,47 @@ def random_cases(ctx, n_cats, max_rows, exts):
     return cases
 
 
+def history_cases(ctx, n_hist, max_rows, exts):
+    """successive catalogues written to the SAME base name: larger then smaller, with then without
+    islands / simples / components; every step is one case whose 'history' holds the earlier catalogues"""
+    rng = ctx.rng
+    mixes = [('CIS', 'C'), ('CIS', 'I'), ('CI', 'S'), ('CS', 'CI'), ('IS', 'C'), ('C', 'CIS'), ('CIS', 'CS', 'C'),
+             ('CISO', 'IS', 'S'), ('C', 'C'), ('I', 'S', 'C')]
+    cases = []
+    for k in range(n_hist):
+        seq = rng.choice(mixes)
+        profile = dict(atypical=rng.random() < 0.4, nan=rng.choice([0.0, 0.08]), pyint=rng.random() < 0.5)
+        sizes = sorted((rng.randint(1, max_rows) for _ in seq), reverse=rng.random() < 0.7)
+        cats = []
+        for mix, n in zip(seq, sizes):
+            cat = gen_catalogue(rng, max(n, len(mix)), mix, profile)
+            for j, L in enumerate(mix):                       # every class of the mix really occurs
+                if L != 'O' and not any(s[0] == L for s in cat):
+                    cat[j % len(cat)] = rand_source(rng, L, j + 1, profile)
+            cats.append(cat)
+        for ext in exts:
+            prefix = rng.choice([None, None, 'p'])
+            meta_i = rng.randrange(len(METAS))
+            stem = rng.choice(FILE_STEMS[:4])
+            for step in range(1, len(cats)):
+                c = make_case(rng, cats[step], ext, stem=stem, prefix=prefix, meta_i=meta_i)
+                c['history'] = cats[:step]
+                cases.append(c)
+    return cases
+
+
+def corpus_histories():
+    """two writes to the same name: the first catalogue holds source types the second lacks"""
+    first = [S('C', island=1), S('I', island=2, uuid='i1'), S('I', island=3, uuid='i2'), S('S', uuid='s1')]
+    out = []
+    for second in ([S('C', island=7, uuid='c7')], [S('S', uuid='s9')], [S('I', island=5, uuid='i5'), S('C', island=6)]):
+        for ext in ALL_EXTS + ['sqlite', 'reg']:
+            c = make_case(None, second, ext, stem='corpus_rewrite')
+            c['history'] = [first]
+            out.append(c)
+    return out
+
+
 def check_hypotheses(ctx):
     """the hypotheses the theorems name, checked on the real classes"""
     cl = classes()
@@ -816,10 +911,13 @@ def run(ctx):
     common.use_repo()
     check_hypotheses(ctx)
     run_cases(ctx, corpus_cases())
+    run_cases(ctx, corpus_histories())
     if ctx.quick:
         run_cases(ctx, random_cases(ctx, 26, 300, ALL_EXTS))
+        run_cases(ctx, history_cases(ctx, 5, 40, ALL_EXTS))
     else:
         run_cases(ctx, random_cases(ctx, 240, 600, ALL_EXTS))
+        run_cases(ctx, history_cases(ctx, 30, 200, ALL_EXTS + ['sqlite']))
         # a few big catalogues, every format
         big = []
         for nrows, mix in ((1000, 'CCIS'), (2000, 'C'), (3000, 'CCIS')):
@@ -839,6 +937,7 @@ def search(ctx):
     try:
         for rounds in range(3):
             run_cases(ctx, random_cases(ctx, 40, 120, ALL_EXTS))
+            run_cases(ctx, history_cases(ctx, 8, 30, ALL_EXTS))
             if any(f['kind'] == 'spec' for f in ctx.failures):
                 break
     finally:
